@@ -22,7 +22,19 @@ CHECK = {
                             "move_assigned_from_copy_of_used_object",
                             "alias_range_is_resolution", "alias_resolution_is_bound", "own_count_passed_as_axis",
                             "ctor_args_temporaries", "ctor_args_moved",
-                            "zero_special", "integer_bounds", "point_origin", "point_equal_components"],
+                            "zero_special", "integer_bounds", "point_origin", "point_equal_components",
+                            "related_pair", "related_same_counts_other_resolution", "related_same_origin_other_resolution",
+                            "related_same_counts_and_origin_other_resolution",
+                            "related_same_counts_and_origin_other_resolution/float2",
+                            "related_same_counts_and_origin_other_resolution/double2",
+                            "related_same_counts_and_origin_other_resolution/float3",
+                            "related_same_counts_and_origin_other_resolution/double3",
+                            "related_same_resolution_and_counts_shifted_origin", "related_same_upper_bound_only",
+                            "related_identical", "related_per_axis_mixture",
+                            "related_symmetric_same_counts_other_resolution",
+                            "related_op_assign_temporary", "related_op_copy_assign", "related_op_move_assign",
+                            "related_op_assign_after_default_construction", "related_op_alternating_history",
+                            "related_op_assign_back"],
     "required_oracles": ["in_bounds", "half_cell", "exact.half_cell", "centre_maps_to_own_index",
                          "spacing", "exact.spacing", "cover", "exact.cover", "cells_have_centres",
                          "resolution_getter", "result_stable", "call_form_independent", "same_as_fresh_object",
@@ -53,7 +65,14 @@ CHECK = {
             "own cell count as axis argument), builds/uses/assigns/destroys sibling mappings of all four instantiations and "
             "formats numbers on a stream with changed flags in the middle, and re-reads the kept references and repeats the "
             "probe at its end; magnitudes stay inside the statement's quantifier (|bound| <= 1e3, 1e-3 <= res <= 10), which "
-            "is far inside the range where the code stays finite, so no empirical magnitude limit applies; per grid "
+            "is far inside the range where the code stays finite, so no empirical magnitude limit applies; 7 % of the cases "
+            "take a pair of RELATED configurations through the re-use operations (assignment from a temporary, copy-assign, "
+            "move-assign, assignment to a default-constructed-then-assigned object, 2^8+k / 2^16+k alternations between the "
+            "two, and back again): on the dyadic lattice res1 = a u, res2 = b u (a != b odd <= 9, u = 2^-7..1), lower bounds "
+            "(k + q/4) res, the pair shares exactly -- per relation -- the cell counts only, the snapped origin only "
+            "(a(2 k1 - 1) = b(2 k2 - 1)), counts and origin with different resolutions (e.g. [-1,3]^2 at 1 and [0,12]^2 at "
+            "3), resolution and counts with a shifted origin, the upper bounds only, everything (identical), counts and "
+            "origin on one axis only, or (maximalRange form) the counts with different resolutions; per grid "
             "60 (quick) / 100 (thorough) points of the closed extent: all corners, then per coordinate lo, hi, uniform, "
             "cell borders (table centre +- res/2), centres, k*res and (k+0.5)*res in scalar arithmetic and correctly "
             "rounded, log-spaced offsets 1e-8..2 res from a bound, lattice points (res/4)Z, each with 0..3 nextafter steps, "
